@@ -128,8 +128,8 @@ def is_inert(inp) -> bool:
             ident = int.from_bytes(arg[1:5], "big")
             data = arg[5:5 + n]
         elif ep == "decode_usb":
-            if len(arg) != 20 or arg[:2] != b"\xaa\x55":
-                return True
+            if len(arg) != 20 or arg[:2] != b"\xaa\x55" or wire.usb_checksum(arg) != arg[19]:
+                return True          # not a packet at all / fails its checksum: nothing in it may be believed
             ident = int.from_bytes(arg[5:9], "little")
             data = arg[10:10 + arg[9]]
         elif ep == "decode_yacht_devices_string":
@@ -150,6 +150,25 @@ def is_inert(inp) -> bool:
     if not ds or ds[0].type != "Fast":
         return True
     return len(data) < 2 or (data[0] & 0x1F) != 0
+
+
+def never_matters(inp) -> bool:
+    """Inputs that cannot legitimately matter in ANY decoder state, even when they are silently ignored rather than
+    refused: USB packets with a wrong marker, length or checksum, and frames of PGN numbers the database does not know."""
+    ep, arg, _ = inp
+    try:
+        if ep == "decode_usb":
+            if len(arg) != 20 or arg[:2] != b"\xaa\x55" or wire.usb_checksum(arg) != arg[19]:
+                return True
+            ident = int.from_bytes(arg[5:9], "little")
+        elif ep == "decode_tcp":
+            ident = int.from_bytes(arg[1:5], "big")
+        else:
+            return False
+    except Exception:  # noqa: BLE001
+        return False
+    _, pgn, _, _ = wire.parse_id(ident)
+    return pgn not in refdb.db().by_pgn
 
 
 def probes(pool, rng, sources):
@@ -310,6 +329,15 @@ def run_shard(spec, acc):
                 ev.data = bytes([msg_seq[ev.msg_no] << 5 | (b0 & 0x1F)]) + ev.data[1:]
         inputs = []
         for ev in events:
+            if ev.tag == "fast" and rng.random() < 0.15:
+                # line noise: a damaged copy (checksum no longer fits) of the very frame that is about to arrive - same stream,
+                # same sequence counter, a frame counter the decoder is still waiting for
+                dmg = bytearray(wire.usb_frame(ev.ident(), ev.data))
+                if rng.random() < 0.5:
+                    dmg[19] ^= rng.randrange(1, 256)
+                else:
+                    dmg[rng.randrange(11, 18)] ^= rng.randrange(1, 256)
+                inputs.append(("bad", None, ("decode_usb", bytes(dmg), {})))
             inputs.append(("ev", ev, ev_input(ev, rng)))
             if rng.random() < 0.25:
                 for b in bad_inputs(pool, rng, sources)[:rng.randint(1, 4)]:
@@ -378,7 +406,7 @@ def run_shard(spec, acc):
         # a decoder that is given the same history WITHOUT the inputs the victim rejected with an error must
         # return the same thing for every remaining input (in-progress fast packets included)
         clean = NMEA2000Decoder(**cfg)
-        removed = [o[0] == "exc" and t == "bad" and is_inert(inp) for (t, ev, inp), o in zip(inputs, outcomes)]
+        removed = [t == "bad" and ((o[0] == "exc" and is_inert(inp)) or (o[0] == "none" and never_matters(inp))) for (t, ev, inp), o in zip(inputs, outcomes)]
         for pos, ((t, ev, inp), o) in enumerate(zip(inputs, outcomes)):
             if removed[pos]:
                 continue
